@@ -697,23 +697,131 @@ Definition counter_rebuild (c : counter_cfg) : counter_cfg :=
   {| cc_w := cc_w c; cc_endw := cc_endw c; cc_check := cc_check c; cc_reset := cc_reset c; cc_never := false |}.
 
 Lemma counter_never_lift (mk : bool -> counter_cfg) e v load lv :
-  counter_rebuild (mk true) = mk false ->
+  counter_rebuild (mk true) = mk false -> cc_never (mk true) = true ->
   (forall inc dec, counter_next (mk false) e v inc dec load lv = counter_spec e v inc dec load lv) ->
   forall (u : counter_use) inc dec en,
     let eff := counter_eff u inc dec en in
     counter_next (mk (counter_never u)) e v (fst eff) (snd eff) load lv
     = counter_spec e v (fst eff || counter_never u) (snd eff) load lv.
 Proof.
-  intros Hrb Hspec u inc dec en eff. subst eff. unfold counter_never, counter_eff.
+  intros Hrb Hn Hspec u inc dec en eff. subst eff. unfold counter_never, counter_eff.
   destruct (match cu_scope u with
             | 0 => (inc, dec) | 1 => (true, true) | 2 => (en && inc, en && dec)
             | 3 => (en && inc, negb en && dec) | 4 => (en, en) | _ => (inc || en, dec || en) end) as [i d].
   destruct (cu_inc u), (cu_dec u); cbn [orb negb andb fst snd]; rewrite ?orb_false_r; try apply Hspec.
-  rewrite counter_next_never. fold (counter_rebuild (mk true)). rewrite Hrb.
-  assert (Hn : cc_never (mk true) = true).
-  { (* the family sets cc_never to its argument; recovered from the rebuild equation is not
-       possible in general, so it is required of the three constructors below *)
-    shelve. }
-  rewrite Hn. apply Hspec.
-Unshelve.
-Abort.
+  rewrite counter_next_never. fold (counter_rebuild (mk true)). rewrite Hrb, Hn. apply Hspec.
+Qed.
+
+Lemma counter_rebuild_end e rv : counter_rebuild (counter_cfg_end e rv true) = counter_cfg_end e rv false.
+Proof. unfold counter_cfg_end, counter_rebuild. destruct (is_pow2 e); reflexivity. Qed.
+Lemma counter_never_end e rv : cc_never (counter_cfg_end e rv true) = true.
+Proof. unfold counter_cfg_end. destruct (is_pow2 e); reflexivity. Qed.
+
+(* Counter(size_t end), every usage variant (inc only / dec only / both / neither; any call-site
+   scope): one step = the modulo-end counter driven by the call-site conditions *)
+Theorem counter_end_use e rv v (u : counter_use) inc dec en load lv :
+  2 <= e -> v < e ->
+  let eff := counter_eff u inc dec en in
+  counter_next (counter_cfg_end e rv (counter_never u)) e v (fst eff) (snd eff) load lv
+  = counter_spec e v (fst eff || counter_never u) (snd eff) load lv.
+Proof.
+  intros He Hv. apply (counter_never_lift (counter_cfg_end e rv)).
+  - apply counter_rebuild_end.
+  - apply counter_never_end.
+  - intros i d. apply (counter_end_correct e rv v i d load lv He Hv).
+Qed.
+
+Theorem counter_w_use w rv v (u : counter_use) inc dec en load lv :
+  1 <= w -> v < 2 ^ w ->
+  let eff := counter_eff u inc dec en in
+  counter_next (counter_cfg_w w rv (counter_never u)) (2 ^ w) v (fst eff) (snd eff) load lv
+  = counter_spec (2 ^ w) v (fst eff || counter_never u) (snd eff) load lv.
+Proof.
+  intros Hw Hv. apply (counter_never_lift (counter_cfg_w w rv)); try reflexivity.
+  intros i d. apply (counter_w_correct w rv v i d load lv Hw Hv).
+Qed.
+
+Theorem counter_dyn_use w rv e v (u : counter_use) inc dec en load lv :
+  1 <= w -> 1 <= e -> e < 2 ^ w -> v < e ->
+  let eff := counter_eff u inc dec en in
+  counter_next (counter_cfg_dyn w rv (counter_never u)) e v (fst eff) (snd eff) load lv
+  = counter_spec e v (fst eff || counter_never u) (snd eff) load lv.
+Proof.
+  intros Hw He1 He2 Hv. apply (counter_never_lift (counter_cfg_dyn w rv)); try reflexivity.
+  intros i d. apply (counter_dyn_correct w rv e v i d load lv Hw He1 He2 Hv).
+Qed.
+
+(* the four binding variants in closed form (call sites IF(inc) c.inc(); IF(dec) c.dec();):
+   an up-only counter holds when idle, a DOWN-ONLY counter holds when idle (it does not
+   auto-increment), a counter with neither call is free running *)
+Theorem counter_end_variants e rv v inc dec load lv :
+  2 <= e -> v < e ->
+  let nx := fun bi bd =>
+    let u := {| cu_inc := bi; cu_dec := bd; cu_scope := 0; cu_ldkind := 1 |} in
+    counter_next (counter_cfg_end e rv (counter_never u)) e v
+                 (fst (counter_eff u inc dec false)) (snd (counter_eff u inc dec false)) load lv in
+  nx true false = (if load then lv else if inc then (v + 1) mod e else v) /\
+  nx false true = (if load then lv else if dec then (v + e - 1) mod e else v) /\
+  nx true true = counter_spec e v inc dec load lv /\
+  nx false false = (if load then lv else (v + 1) mod e).
+Proof.
+  intros He Hv nx. unfold nx.
+  repeat split; rewrite (counter_end_use e rv v _ inc dec false load lv He Hv);
+    unfold counter_spec, counter_eff, counter_never; cbn [cu_inc cu_dec cu_scope fst snd andb orb negb];
+    destruct load, inc, dec; reflexivity.
+Qed.
+
+(* trace level, any usage variant of Counter(size_t end) *)
+Fixpoint counter_use_spec_run (e : N) (never : bool) (value : N) (tr : list counter_in) : list (N * bool * bool * bool) :=
+  match tr with
+  | [] => []
+  | i :: r =>
+    let nxt := counter_spec e value (ci_inc i || never) (ci_dec i) (ci_load i) (ci_loadv i) in
+    (value, value =? e - 1, value =? 0, nxt =? 0) :: counter_use_spec_run e never nxt r
+  end.
+
+Theorem counter_end_use_run e rv (u : counter_use) value (raw : list (bool * bool * bool * bool * N)) :
+  2 <= e -> value < e -> rv < e ->
+  Forall (fun '(_, _, _, _, lv) => lv < e) raw ->
+  let c := counter_cfg_end e rv (counter_never u) in
+  let tr := map (fun '(inc, dec, en, load, lv) => counter_use_in c u inc dec en load lv e) raw in
+  counter_run c value tr = counter_use_spec_run e (counter_never u) value tr.
+Proof.
+  intros He Hv Hrv Hall c tr. subst tr. revert value Hv.
+  induction Hall as [|[[[[inc dec] en] load] lv] raw Hlv Hall IH]; intros value Hv; [reflexivity|].
+  cbn [map counter_run counter_use_spec_run]. unfold counter_out.
+  set (ci := counter_use_in c u inc dec en load lv e).
+  assert (Hend : ci_end ci = e).
+  { unfold ci, counter_use_in. destruct (counter_eff u inc dec en). reflexivity. }
+  assert (Hstep : counter_next c e value (ci_inc ci) (ci_dec ci) (ci_load ci) (ci_loadv ci)
+                  = counter_spec e value (ci_inc ci || counter_never u) (ci_dec ci) (ci_load ci) (ci_loadv ci)).
+  { unfold ci, counter_use_in.
+    pose proof (counter_end_use e rv value u inc dec en) as H. cbv zeta in H.
+    destruct (counter_eff u inc dec en) as [i d]. cbn [ci_inc ci_dec ci_load ci_loadv fst snd] in *.
+    apply H; assumption. }
+  assert (Hlast : counter_lastv c e = e - 1).
+  { unfold c. destruct (counter_never u).
+    - pose proof (counter_end_correct e rv value false false false 0 He Hv) as (_ & Hl & _).
+      unfold counter_lastv in *. rewrite <- Hl. unfold counter_cfg_end. destruct (is_pow2 e); reflexivity.
+    - apply (counter_end_correct e rv value false false false 0 He Hv). }
+  rewrite Hend, Hstep, Hlast. f_equal. apply IH.
+  apply counter_spec_lt; [lia|exact Hv|].
+  unfold ci, counter_use_in. destruct (counter_eff u inc dec en). cbn [ci_loadv].
+  destruct (cu_ldkind u) as [|[[|[]|]|[|[]|]|]]; try exact Hlv.
+  unfold c, counter_cfg_end. destruct (is_pow2 e); exact Hrv.
+Qed.
+
+(* ------------------------------------------------------------------ Adder<UInt> *)
+Theorem adder_correct w ops :
+  ops <> [] -> Forall (fun a => a < 2 ^ w) ops ->
+  adder_run w ops = fold_right N.add 0 ops mod 2 ^ w.
+Proof.
+  intros Hne Hall. destruct ops as [|a r]; [congruence|]. cbn [adder_run fold_right].
+  assert (HM : 2 ^ w <> 0) by (apply N.pow_nonzero; discriminate).
+  apply Forall_cons_iff in Hall as [Ha _].
+  assert (G : forall l s, fold_left (fun s b => (s + b) mod 2 ^ w) l (s mod 2 ^ w) = (s + fold_right N.add 0 l) mod 2 ^ w).
+  { induction l as [|b l IH]; intro s; cbn [fold_left fold_right].
+    - rewrite N.add_0_r. reflexivity.
+    - rewrite N.add_mod_idemp_l by exact HM. rewrite IH. f_equal. lia. }
+  rewrite <- (N.mod_small a (2 ^ w)) at 1 by exact Ha. apply G.
+Qed.
